@@ -146,6 +146,18 @@ def setup():
 
 
 def engine(tier, seed):
+    # two checks (C05 and C19) use this engine and may be started at the same time: they share one crate directory, so they take turns
+    import fcntl
+    os.makedirs(W.WORK, exist_ok=True)
+    with open(os.path.join(W.WORK, 'kani-' + W._TAG + '.lock'), 'w') as lk:
+        fcntl.flock(lk, fcntl.LOCK_EX)
+        try:
+            return _engine(tier, seed)
+        finally:
+            fcntl.flock(lk, fcntl.LOCK_UN)
+
+
+def _engine(tier, seed):
     res = {'engine': 'kani', 'backend': 'Kani 0.68.0 / CBMC 6.11 (CaDiCaL)', 'obligs': [], 'undecided': [], 'obligations': 0, 'discharged': 0,
            'samples': [], 'checker_cmds': [], 'solver_ms': {}, 'bounded': [],
            'trusted': ['Kani/CBMC bit-precise semantics of i64 and std::num::Wrapping',
